@@ -3,7 +3,7 @@
 Universe: a fixed document family (6 operations: shared path items, a `$ref`'d path item, operations without tags /
 operationId, a deprecated one, links by operationId and operationRef, a parameter behind `$ref`).
   * ``filters_enum``  bounded exhaustive enumeration of filter sets (<=1 include and <=1 exclude in the quick tier,
-                      <=2 and <=2 in the thorough tier) over 24 atoms (path/method/name/tag/operation-id by value, list,
+                      <=2 and <=2 in the thorough tier) over 26 atoms (path/method/name/tag/operation-id by value, list,
                       regex; conjunctions; function filters; expression filters incl. a pointer that crosses a `$ref`;
                       deprecated), applied step by step through the public API (``schema.include(...).exclude(...)``);
                       every *intermediate* schema is re-checked at the end (derived schemas must not affect their parents),
@@ -114,6 +114,8 @@ ATOMS = [
     [{"kind": "expr", "pointer": "/operationId", "op": "!=", "value": "getUser"}],
     [{"kind": "expr", "pointer": "/tags/1", "op": "==", "value": "write"}],
     [{"kind": "deprecated"}],
+    # values that strictly contain another operation's attribute: equality, not containment, is the documented meaning
+    [A("path", "value", "/users/{uid}")], [A("name", "value", "GET /users/{uid}")],
 ]
 FUNCS = dict(selection.FUNCS)
 FUNCS["path_has_b"] = lambda op: "d" in op["path"]  # "/orders", "/shared"
@@ -365,11 +367,11 @@ SUBS = [
     Sub("engine", collect=True, fn=check_engine, strategy=engine_case, quick=(8, 6), thorough=(16, 150), shrink_quick=False, timeout_quick=600, timeout_thorough=3400),
 ]
 FLOOR = {"filters_enum": 1000, "engine": 20}
-BOUNDS = {"filters_enum": "24 atoms; quick: all sets with <=1 include and <=1 exclude (both orders sampled), all 2+0 and 0+2; thorough adds all 2+1, 1+2 and a quarter of 2+2 sets; each applied step by step through schema.include/exclude with every intermediate schema re-checked, plus the FilterArguments.into() route where expressible"}
+BOUNDS = {"filters_enum": "26 atoms; quick: all sets with <=1 include and <=1 exclude (both orders sampled), all 2+0 and 0+2; thorough adds all 2+1, 1+2 and a quarter of 2+2 sets; each applied step by step through schema.include/exclude with every intermediate schema re-checked, plus the FilterArguments.into() route where expressible"}
 
 MANIFEST = {
     "category": "exploration",
     "technique": "bounded exhaustive enumeration of filter sets against a reference selection model (in-memory observations) + Hypothesis-sampled engine runs against a recording loopback API",
-    "text": "All filter sets up to the stated bound over 24 atoms of every documented kind are applied through the public include/exclude API (re-checking every intermediate schema afterwards) and through the CLI's FilterArguments; offered operations, statistic 'selected / total' counts for operations and links, and state-machine transitions are compared with an independent selection model evaluated on the plain document. Sampled filter sets are additionally run through the real engine (all phases, 1-2 workers) against a loopback API: no request may reach a documented but unselected operation, every selected operation has a scenario in every unit phase, stateful cases stay inside the selection.",
+    "text": "All filter sets up to the stated bound over 26 atoms of every documented kind are applied through the public include/exclude API (re-checking every intermediate schema afterwards) and through the CLI's FilterArguments; offered operations, statistic 'selected / total' counts for operations and links, and state-machine transitions are compared with an independent selection model evaluated on the plain document. Sampled filter sets are additionally run through the real engine (all phases, 1-2 workers) against a loopback API: no request may reach a documented but unselected operation, every selected operation has a scenario in every unit phase, stateful cases stay inside the selection.",
     "note": "The document family is fixed; pytest parametrisation / lazy fixtures are not exercised; engine observations are sampled.",
 }
